@@ -44,7 +44,7 @@ type GBCase struct {
 	Batch      int       `json:"batch"`
 	LimitVia   string    `json:"limit_via"`   // "global" (groupby.DefaultLimit) or "flag" (`with -limit N`)
 	Perm       []int     `json:"perm"`        // a permutation of the row indices
-	SortOn     int       `json:"sort_on"`     // index of the plain-field key the sorted variants sort and declare on; -1: none
+	SortOn     int       `json:"sort_on"`     // index of the plain-field (possibly renamed, kk:=k) key whose field the sorted variants sort and declare on; -1: none
 	SortLimit  int       `json:"sort_limit"`  // table limit of the second sorted run
 	Shards     []int     `json:"shards"`      // row index -> shard
 	NShards    int       `json:"nshards"`     // 1..4
@@ -201,6 +201,7 @@ func genGBCase(t *rapid.T) GBCase {
 		switch rapid.IntRange(0, 9).Draw(t, "keyform") {
 		case 0:
 			c.Keys = append(c.Keys, KeySpec{Name: col + col, Expr: col})
+			plain = append(plain, j) // a renamed plain field: the sorted variants sort and declare on the field itself
 		case 1, 2:
 			e := rapid.SampledFrom([]string{"i%3", "len(s)", "typeof(" + col + ")", `s+"_"`, col + "+1", "b", "m"}).Draw(t, "computed")
 			c.Keys = append(c.Keys, KeySpec{Name: "c" + strconv.Itoa(j), Expr: e})
@@ -1324,7 +1325,7 @@ func runGBCase(c GBCase) *vt.Outcome {
 			kv := m.keyVals[c.SortOn]
 			sort.SliceStable(sorted, func(a, b int) bool { return cmp(kv[sorted[a]], kv[sorted[b]]) < 0 })
 			for _, l := range []int{1000000, c.SortLimit} {
-				name := fmt.Sprintf("sorted (%s on %s, declared; table limit %d; batch %d)", which, c.Keys[c.SortOn].Name, l, c.Batch)
+				name := fmt.Sprintf("sorted (%s on %s, declared; table limit %d; batch %d)", which, c.Keys[c.SortOn].Expr, l, c.Batch)
 				if l < m.nFine && errorSortKey {
 					// Known finding C10-sorted-spill-error-key: see known.json.  Not executed (it can also
 					// dereference a nil maxSpillKey in the operator goroutine).
@@ -1333,7 +1334,7 @@ func runGBCase(c GBCase) *vt.Outcome {
 						continue
 					}
 				}
-				out, err := m.summarize(sorted, l, runOpts{sortKey: sortKeyOn(c.Keys[c.SortOn].Name, desc)})
+				out, err := m.summarize(sorted, l, runOpts{sortKey: sortKeyOn(c.Keys[c.SortOn].Expr, desc)})
 				if err != nil {
 					o.Fail = queryFailure(name, err)
 					return o
